@@ -4,11 +4,12 @@
    Thrift/Idl.v + IdlPinned.v (the Parquet IDL as a table, typed check `conforms`),
    Impl/CThrift.v (cencoding.pyx: write_thrift/write_list/to_bytes with the fixed buffer,
    read_thrift/read_list, dict_eq), Impl/CThriftSpec.v (the value tree an object denotes). *)
-From Coq Require Import NArith ZArith List Bool.
+From Coq Require Import NArith ZArith List Bool String.
 From Pq Require Import Base.Bytes Thrift.Varint Thrift.Compact Thrift.Idl Thrift.IdlPinned
-  Impl.CThrift Impl.CThriftSpec Proofs.CompactProofs Proofs.CThriftProofs Proofs.CThriftRead
-  Proofs.CThriftRoundtrip Proofs.CThriftMain Proofs.CThriftReser.
+  Impl.CThrift Impl.CThriftSpec Impl.CThriftTyped Proofs.CThriftTypedProofs Proofs.CompactProofs Proofs.CThriftProofs Proofs.CThriftRead
+  Proofs.CThriftRoundtrip Proofs.CThriftMain Proofs.CThriftReser Proofs.CThriftTotal.
 Import ListNotations.
+Open Scope list_scope.
 Open Scope N_scope.
 
 (* the specification's reader inverts the specification's writer: every representable value tree,
@@ -27,16 +28,32 @@ Theorem C10_conformance_bytes : forall v, ser v = option_map wr (t_top v).
 Proof. exact ser_spec. Qed.
 Print Assumptions C10_conformance_bytes.
 
+(* IDL conformance of the emitted bytes, from a condition on the PYTHON object: if every value has the shape
+   of its declared type and for every integer field the wire type selected by the enclosing dict's
+   "i32"/"i32list" markers is the declared one (typed_ok; established for the writer's construction sites by
+   gen_callsites_markers_conform and evaluated on every generated structure by the harness), then what
+   to_bytes emits is the specification's encoding of a tree that passes the strict IDL check: declared
+   field ids only, declared wire types, increasing ids, required fields present, unions one arm.  Only
+   leniency: an empty list carries element type 0 (open finding). *)
+Theorem C10_typed_conformance : forall d n v bs,
+  typed_ok pinned d (FStruct n) 0 v = true -> ser v = Some bs ->
+  exists t, bs = wr t /\ conforms pinned lenient (FStruct n) t = true.
+Proof. exact (typed_conformance pinned). Qed.
+Print Assumptions C10_typed_conformance.
+
 (* the round trip of cencoding.pyx (partial: the full statement "for every metadata structure" is false on
    the pinned tree, see the refuted theorems).  For every object in `dom` - every key that carries a
    value is in 1..13, no floats, byte strings and lists shorter than 2^31, lists homogeneous (ints in C int
    range, str, or dicts), dict nesting up to 63 - with ANY number of fields, list elements (row groups,
-   columns, key-values) and ANY string lengths: if the serialisation fits the buffer, to_bytes returns it
-   completely and read_thrift of it is an object that ThriftObject.__eq__ (dict_eq) considers equal. *)
-Theorem C10_roundtrip_partial : forall cap v bs,
-  dom 63 v = true -> ser v = Some bs -> len bs <= cap ->
-  to_bytes cap v = OBytes bs /\ exists v', from_buffer bs = Some (v', []) /\ obj_eq v v' = true.
-Proof. intros cap v bs Hd Hs Hc. split; [exact (to_bytes_fits cap v bs Hs Hc)|exact (roundtrip v bs Hd Hs)]. Qed.
+   columns, key-values) and ANY string lengths: the serialiser does not raise; if the serialisation fits the
+   buffer, to_bytes returns it completely; and read_thrift of it is an object that ThriftObject.__eq__
+   (dict_eq) considers equal. *)
+Theorem C10_roundtrip_partial : forall a b c,
+  dom 63 (PDict a b c) = true ->
+  exists bs, ser (PDict a b c) = Some bs /\
+    (forall cap, len bs <= cap -> to_bytes cap (PDict a b c) = OBytes bs) /\
+    exists v', from_buffer bs = Some (v', []) /\ obj_eq (PDict a b c) v' = true.
+Proof. exact roundtrip_total. Qed.
 Print Assumptions C10_roundtrip_partial.
 
 (* read_thrift/read_list parse the SPECIFICATION's encoding of every value tree in the class they handle
@@ -105,5 +122,7 @@ Example C10_nonvacuous :
   /\ option_map fst (thrift_dec false [24; 1; 107; 21; 14; 22; 1; 25; 37; 2; 4; 0]) = t_top v
   /\ to_bytes 5 (PDict false None [(1%Z, PInt 1); (2%Z, PInt 2); (3%Z, PInt 3)]) = OBytes [22; 2; 22; 4; 22]
   /\ dom 63 v = true
+  /\ typed_ok pinned 5 (FStruct "KeyValue"%string) 0 (PDict false None [(1%Z, PStr [107]); (2%Z, PStr [118])]) = true
+  /\ typed_ok pinned 5 (FStruct "Statistics"%string) 0 (PDict true None [(3%Z, PInt 7)]) = false
   /\ option_map (fun p => obj_eq v (fst p)) (from_buffer [24; 1; 107; 21; 14; 22; 1; 25; 37; 2; 4; 0]) = Some true.
 Proof. vm_compute. repeat split. Qed.
